@@ -139,6 +139,12 @@ macro_rules! api_table {
                     e!("rem_euclid", AB, true, |x: &Args| o(t(x.a).rem_euclid(t(x.b)))),
                     e!("mul_add", ABC, true, |x: &Args| o(num_traits::Float::mul_add(t(x.a), t(x.b), t(x.c)))),
                     e!("sum[a,b,c]", ABC, false, |x: &Args| o([t(x.a), t(x.b), t(x.c)].iter().sum::<TwoFloat>())),
+                    e!("sum(long)", ABC, true, |x: &Args| {
+                        // a long iterator (up to ~6000 terms) derived from a, b, c and the integer argument
+                        let len = 2 + (x.i.unsigned_abs() % 6000) as usize;
+                        let base = [t(x.a), t(x.b), t(x.c)];
+                        o((0..len).map(|k| base[k % 3] * (1.0 + (k as f64) / 1048576.0)).sum::<TwoFloat>())
+                    }),
                     e!("sum[f,g]", FF, false, |x: &Args| o([x.f, x.g].iter().sum::<TwoFloat>())),
                     e!("Inv::inv", A, true, |x: &Args| o(num_traits::Inv::inv(t(x.a)))),
                     e!("Pow<i16>", AN, true, |x: &Args| o(num_traits::Pow::pow(t(x.a), x.n as i16))),
